@@ -14,7 +14,11 @@ from .driver import Driver
 from .sexp import ERR
 
 VERIF = build.VERIF
-EVID = os.path.join(VERIF, "evidence")
+# VERIF_EVID_DIR / VERIF_MUT_FAST are used ONLY by harness/mutation_adequacy.py (scratch runs against automatically
+# mutated copies of the library, many in parallel): evidence goes to a scratch directory and the proof gate, which
+# does not depend on the tree under test except through the constant translators, is skipped.  No registered
+# command sets them.
+EVID = os.environ.get("VERIF_EVID_DIR") or os.path.join(VERIF, "evidence")
 REPLAYS = os.path.join(EVID, "replays")
 FINDINGS = os.path.join(VERIF, "KNOWN_FINDINGS.json")
 CORPUS = os.path.join(VERIF, "corpus")
@@ -167,6 +171,8 @@ class Engine:
         """Returns (n_cases, failures:list[str], note)."""
         if not self.vm_cases:
             return 0, [], "no cases sampled"
+        if os.environ.get("VERIF_MUT_FAST") and os.environ.get("VERIF_EVID_DIR"):
+            return 0, [], "skipped (scratch mutation-adequacy run)"
 
         def cz(n):
             return f"({n})%Z"
@@ -298,7 +304,10 @@ class Engine:
     def run(self):
         pid = self.pid
         os.makedirs(REPLAYS, exist_ok=True)
-        pr = proofs.check_props(pid)
+        if os.environ.get("VERIF_MUT_FAST") and os.environ.get("VERIF_EVID_DIR"):
+            pr = {"failures": [], "theorems": [], "assumptions": {}, "obligations": 0, "discharged": 0}
+        else:
+            pr = proofs.check_props(pid)
         proof_fail = list(pr["failures"])
         try:
             exe = build.build_driver(pid)
